@@ -195,6 +195,17 @@ var Variants = []Variant{
 		q.Requires = append(q.Requires, uname(p))
 		return c
 	}},
+	{"dup-param", func(d *Decl, p int) *Decl {
+		// the last consumer takes the same type twice (two parameters fed by one producer result)
+		cs := consumers(d, tname(p))
+		if len(cs) == 0 {
+			return nil
+		}
+		c := d.Clone()
+		q := c.Provs[cs[len(cs)-1].ID]
+		q.Requires = append([]string{tname(p)}, q.Requires...)
+		return c
+	}},
 	{"multi-first-unused", func(d *Decl, p int) *Decl {
 		// (U, T): the needed value is the second result
 		c := d.Clone()
@@ -536,6 +547,59 @@ func Universe(tier string) []*Decl {
 		for _, v := range Variants {
 			for p := range b.Provs {
 				add(v.Apply(b, p), fmt.Sprintf("%s@%d", v.Name, p))
+			}
+		}
+	}
+	// Block F: toggles that create parallel edges between two providers (two results, one type twice,
+	// concrete type + bound interface, field + struct) on every all-needed n=4 shape.
+	multiEdge := map[string]bool{"multi-both": true, "dup-param": true, "bind-half": true, "struct-split": true}
+	masksF := []uint{0b1111, 0b0110, 0b0011}
+	if thorough {
+		masksF = []uint{0b1111, 0b0110, 0b0011, 0b0101, 0b1010, 0b0111, 0b1100}
+	}
+	for e := uint(0); e < 1<<numEdges(4); e++ {
+		if !allReachable(4, e) {
+			continue
+		}
+		for _, a := range masksF {
+			b := Base(4, e, a, 0)
+			for _, v := range Variants {
+				if !multiEdge[v.Name] {
+					continue
+				}
+				for p := range b.Provs {
+					add(v.Apply(b, p), fmt.Sprintf("%s@%d", v.Name, p))
+				}
+			}
+		}
+	}
+	// Block G: several injectors per file / a package-level identifier called ctx: the context
+	// parameter of the injector under test is then named ctx0. Applied to context-taking providers
+	// in concurrent shapes.
+	var basesG []*Decl
+	basesG = append(basesG, wideC...)
+	for _, b := range basesC {
+		if len(b.Provs) == 3 && b.Provs[0].Async && b.Provs[1].Async {
+			basesG = append(basesG, b)
+		}
+	}
+	for _, b := range basesG {
+		for _, pre := range []string{"ctx-injector", "pkg-ident-ctx"} {
+			c := b.Clone()
+			c.Prelude = pre
+			add(c, pre)
+			for _, v := range Variants {
+				if v.Name != "ctx-first" && v.Name != "ctx-last-with-arg" {
+					continue
+				}
+				for p := range b.Provs {
+					d1 := v.Apply(b, p)
+					if d1 == nil {
+						continue
+					}
+					d1.Prelude = pre
+					add(d1, fmt.Sprintf("%s@%d+%s", v.Name, p, pre))
+				}
 			}
 		}
 	}
